@@ -18,6 +18,7 @@ INVARIANT GateInv
 INVARIANT LookupSound
 PROPERTY RefusedKeepsRows
 PROPERTY GivenVersionFixed
+PROPERTY CopyFaithful
 PROPERTY ParkedIndependent
 INVARIANT ParkedInv
 CHECK_DEADLOCK FALSE
